@@ -321,7 +321,17 @@ func (gn *gen) image(label string, subject string) int {
 		if a := gn.annotations(label + "_lann"); a != nil && !docker {
 			extra = append(extra, kv{"annotations", mapJSON(a)})
 		}
-		layers = append(layers, gn.desc(mtL, d, len(b.Data), extra...))
+		lmt := mtL
+		if gn.opt.Foreign && rapid.IntRange(0, 11).Draw(t, label+"_lforeignmt") == 0 {
+			// a layer of a non-distributable media type WITHOUT urls that the source itself hosts (what a registry
+			// holds after such a layer was pushed with --include-external): it is ordinary content of the image
+			lmt = "application/vnd.oci.image.layer.nondistributable.v1.tar+gzip"
+			if docker {
+				lmt = rm.MTDockerForeig
+			}
+			gn.label("foreign-type-layer-hosted-by-source")
+		}
+		layers = append(layers, gn.desc(lmt, d, len(b.Data), extra...))
 		n.Blobs = append(n.Blobs, d)
 	}
 	for i, a := range n.Blobs {
